@@ -24,7 +24,7 @@ func c06Scenarios() []histParams {
 }
 
 func c07Scenarios() []histParams {
-	ev := []string{"tx:U1:R1", "inv:T:R1", "tx:T:R1", "ans", "tx:U1:D1", "tx:T:D1", "tx:T:R3", "tx:U1:M2", "local:R3", "tick:100", "tick:1900", "tick:2300", "mine+:R1", "mine+:", "restart"}
+	ev := []string{"tx:U1:R1", "inv:T:R1", "tx:T:R1", "ans", "tx:U1:D1", "tx:U1:D2", "tx:T:D1", "tx:T:R3", "tx:U1:M2", "local:R3", "tick:100", "tick:1900", "tick:2300", "mine+:R1", "mine+:", "restart"}
 	return []histParams{{Prop: "C07", Cfg: txCfg(1), Boot: "synced", Events: ev, Tx: true, Live: true}}
 }
 
@@ -43,6 +43,14 @@ func c14Scenarios() []histParams {
 }
 
 var histSched = map[string]func() []nschedTask{
+	"C06": func() []nschedTask {
+		sc := c06Scenarios()[0]
+		return []nschedTask{
+			// a relevant tx arrives while a block is being processed; a later block confirms a double spend of it
+			{P: sc, Hist: []string{"mine:I1", "ans", "tick:250", "tx:T:R1", "tick:250", "mine+:D2", "tick:250"}},
+			{P: sc, Hist: []string{"tx:T:R3", "mine:I2", "multi:ans|tx:U1:R1", "tick:250", "tx:T:R1", "tick:250", "mine+:D1", "tick:250", "mine+:M1"}},
+		}
+	},
 	"C07": func() []nschedTask {
 		sc := c07Scenarios()[0]
 		return []nschedTask{
